@@ -96,11 +96,61 @@ def pack_check(mexe, path):
     return n, None
 
 
+def extra_image(src, kind):
+    """consistent filesystems with shapes the common images lack:
+    prealloc - files whose written extent is followed, logically and physically, by an unwritten one inside i_size,
+               on a device whose old contents are not zero;
+    bigalloc_dense - bigalloc, linear multi-block directories packed with long names, each followed by a file's clusters"""
+    import mkimg
+    img = os.path.join(WORK, "extra_%s.img" % kind)
+    with e2v.Lock(img + ".lock"):
+        keyf = img + ".key"
+        k = open(os.path.join(e2v.SCRATCH, "std", "KEY")).read()
+        if os.path.exists(img) and os.path.exists(keyf) and open(keyf).read() == k:
+            return img
+        T = lambda p: os.path.join(src, p)
+        env = e2v.tool_env(src, E2FSPROGS_FAKE_TIME="1700000000")
+        hf = mkimg.host_files(os.path.join(e2v.SCRATCH, "hostfiles"), 1)
+        with open(img, "wb") as f:
+            f.write(b"X" * (8 << 20))
+        cmds = []
+        if kind == "prealloc":
+            opts = ["-t", "ext4", "-b", "1024", "-E", "nodiscard,lazy_itable_init=0,lazy_journal_init=0"]
+            for i in range(6):
+                cmds += ["write %s p%d" % (hf["small"], i), "sif p%d size 4096" % i, "fallocate p%d 1 3" % i]
+            cmds += ["write %s plain" % hf["mid"], "mkdir d", "write %s d/q" % hf["small"], "sif d/q size 8192", "fallocate d/q 1 6"]
+        else:
+            opts = ["-t", "ext4", "-b", "1024", "-O", "bigalloc", "-C", "4096", "-E", "nodiscard,lazy_itable_init=0,lazy_journal_init=0"]
+            for i, n in enumerate([16, 32, 12, 28, 20, 48, 15, 16]):
+                cmds.append("mkdir dd%d" % i)
+                cmds += ["write /dev/null dd%d/%s_%03d" % (i, "L" * 190, j) for j in range(n)]
+                cmds.append("write %s ddfile%d" % (hf["mid"], i))
+        rc, out = e2v.sh([T("misc/mke2fs"), "-q", "-F"] + opts + ["-U", mkimg.UUID, "-E", "hash_seed=" + mkimg.HSEED, img], env=env, timeout=120) \
+            if False else e2v.sh([T("misc/mke2fs"), "-q", "-F"] + opts[:-2] + ["-U", mkimg.UUID, "-E", opts[-1] + ",hash_seed=" + mkimg.HSEED, img], env=env, timeout=120)
+        if rc != 0:
+            raise RuntimeError("mke2fs failed for extra image %s: %s" % (kind, out[-300:]))
+        e2v.sh([T("debugfs/debugfs"), "-w", "-f", "-", img], input=("\n".join(cmds) + "\n").encode(), env=env, timeout=300)
+        rc, out = e2v.sh([T("e2fsck/e2fsck"), "-fn", img], env=env, timeout=300)
+        if rc != 0:
+            raise RuntimeError("extra image %s not clean: %s" % (kind, out[-400:]))
+        open(keyf, "w").write(k)
+        return img
+
+
+EXTRA = [("prealloc", ["-fy", "-E", "bmap2extent"]), ("bigalloc_dense", ["-fyD"]), ("prealloc", ["-fyD"]), ("bigalloc_dense", ["-fy"]),
+         ("prealloc", ["-fy"]), ("bigalloc_dense", ["-fy", "-E", "bmap2extent"])]
+
+
 def healthy_case(src, mexe, idx, seed, tier):
     r = e2v.rng(seed, "c05h", idx)
-    name, opts, size = corrupt.IMG_CONFIGS[idx % len(corrupt.IMG_CONFIGS)]
-    base = corrupt.build_image(src, WORK, name, opts, size, 1 + (idx // 12) % 2, nfiles=r.choice([60, 60, 150]))
-    mode = MODES[(idx // len(corrupt.IMG_CONFIGS)) % len(MODES)]
+    if idx < len(EXTRA) or (tier != "quick" and idx % 40 == 7):
+        name, mode = EXTRA[idx % len(EXTRA)]
+        opts = ["(extra image)"]
+        base = extra_image(src, name)
+    else:
+        name, opts, size = corrupt.IMG_CONFIGS[idx % len(corrupt.IMG_CONFIGS)]
+        base = corrupt.build_image(src, WORK, name, opts, size, 1 + (idx // 12) % 2, nfiles=r.choice([60, 60, 150]))
+        mode = MODES[(idx // len(corrupt.IMG_CONFIGS)) % len(MODES)]
     img = os.path.join(WORK, "h_%d.img" % idx)
     shutil.copy(base, img)
     t0 = tree_of(img)
@@ -116,7 +166,10 @@ def healthy_case(src, mexe, idx, seed, tier):
     cons = c02.judge_consistency(img)
     if cons:
         problems.append("result inconsistent: %s" % cons[:3])
-    if "-fyD" in mode and not problems:
+    rc2, out2 = e2v.sh([os.path.join(src, "e2fsck/e2fsck"), "-fn", img], env=env, timeout=300)
+    if rc2 != 0:
+        problems.append("e2fsck -fn exits %d after e2fsck %s on a consistent filesystem" % (rc2, " ".join(mode)))
+    if "-fyD" in mode and not problems and cons is not None:
         nblk, drift = pack_check(mexe, img)
     os.unlink(img)
     return recipe, problems, drift, nblk
@@ -164,7 +217,7 @@ def run(res, replay=None):
     for nm, op, sz in corrupt.IMG_CONFIGS:
         corrupt.build_image(src, WORK, nm, op, sz, 1)
         corrupt.build_image(src, WORK, nm, op, sz, 2)
-    nh = 30 if tier == "quick" else 900
+    nh = 36 if tier == "quick" else 900
     ns = 40 if tier == "quick" else 3000
     with concurrent.futures.ThreadPoolExecutor(16) as ex:
         houts = list(ex.map(lambda i: healthy_case(src, mexe, i, seed, tier), range(nh)))
